@@ -41,6 +41,7 @@ type Module struct {
 	Groupings    []*Node // top-level groupings (visible to others)
 	Typedefs     []*Node // top-level typedefs
 	Identities   []*Node // identities
+	File         string  // file name override (default Name + ".yang")
 }
 
 // Set is a generated module set in intended load order.
@@ -63,11 +64,12 @@ type Config struct {
 	Notification bool
 	BadRate      float64 // scales every deliberate-fault probability
 	Typedefs     bool    // typedefs (chains, restrictions, enums, unions), identities and identityrefs
+	Revisions    bool    // sometimes load a second, older revision of a module too
 }
 
 func Default() Config {
 	return Config{MaxModules: 3, Submodules: true, Augments: true, Deviations: true, RPCs: true, Choices: true,
-		Groupings: true, BadRefs: true, MaxDepth: 3, ConfigStmts: true, Notification: true, BadRate: 0.3, Typedefs: true}
+		Groupings: true, BadRefs: true, MaxDepth: 3, ConfigStmts: true, Notification: true, BadRate: 0.3, Typedefs: true, Revisions: true}
 }
 
 var nodeNames = []string{"x", "y", "z", "w"}
@@ -177,6 +179,30 @@ func Generate(r *rand.Rand, cfg Config) *Set {
 			na := r.Intn(3)
 			for i := 0; i < na; i++ {
 				g.augment(m, set)
+			}
+		}
+	}
+	if cfg.Revisions && g.chance(0.12) {
+		// a second, older revision of one module (same body plus one extra leaf), loaded as well
+		var mods []*Module
+		for _, m := range set.Mods {
+			if !m.Sub && len(m.Includes) == 0 {
+				mods = append(mods, m)
+			}
+		}
+		if len(mods) > 0 {
+			m := mods[r.Intn(len(mods))]
+			if len(m.Revisions) == 0 {
+				m.Revisions = []string{"2020-01-01"}
+			}
+			o := &Module{Name: m.Name, Prefix: m.Prefix, Namespace: m.Namespace, Revisions: []string{"2019-01-01"},
+				Imports: m.Imports, ImportPrefix: m.ImportPrefix, File: m.Name + "@2019-01-01.yang"}
+			o.Body = &Node{Kw: "module", Arg: m.Name, Kids: append([]*Node{}, m.Body.Kids...)}
+			o.Body.add("leaf", "oldrev").add("type", "string")
+			if g.chance(0.5) {
+				set.Mods = append(set.Mods, o)
+			} else {
+				set.Mods = append([]*Module{o}, set.Mods...)
 			}
 		}
 	}
@@ -809,7 +835,12 @@ func (m *Module) Text() string {
 }
 
 // FileName is the name a module is loaded under.
-func (m *Module) FileName() string { return m.Name + ".yang" }
+func (m *Module) FileName() string {
+	if m.File != "" {
+		return m.File
+	}
+	return m.Name + ".yang"
+}
 
 // Files returns names and texts in the set's order.
 func (s *Set) Files() (names, texts []string) {
